@@ -10,6 +10,8 @@ data: URL and URL joining, HTML presentational attribute readers (through layout
 processes with a watchdog; stack overflows and out-of-memory deaths are caught by the process pool. Outcome records (every
 abnormal one and a 1/97 sample of the normal ones) are validated by TLC with ContractTrace.tla.
 Level: exploration of the stated input spaces (exhaustive up to the stated lengths).
+Also: the reference graphs of SvgRefs.tla (use, gradient href, pattern, clip path, mask, marker, incl. cycles) are parsed
+and drawn; a crash or hang there is reported here (the geometry is C18's).
 """
 import json
 import os
